@@ -53,6 +53,11 @@ DOCS = {
                                      "o": {"type": "object", "title": "Inner", "required": ["k3", "k1", "k2"], "dependencies": {"k1": ["k2", "k3", "k0"]}, "enum": [{"k1": 1}, {"k2": 2}, {"k3": 3}]}},
                                      "required": ["z1", "a", "z2", "z3", "o"], "patternProperties": {"^p": {"type": "integer"}, "^q": {"type": "string"}, "^r": {"type": "null"}},
                                      "definitions": {"d3": {"type": "integer"}, "d1": {"type": "string"}, "d2": {"type": "object", "title": "D2", "required": ["y", "x", "w"]}}},
+    "single_branch_defaults": {"type": "object", "title": "Root", "properties": {
+        "flag": {"allOf": [{"type": "boolean"}], "default": True}, "nothing": {"anyOf": [{"type": "null"}], "default": None},
+        "any": {"allOf": [{}], "default": []}, "s": {"oneOf": [{"type": "string"}], "default": "x"}, "i": {"allOf": [{"type": "integer"}], "default": 0}}},
+    "plain_simple_types": {"type": "object", "title": "Plain", "properties": {"a": {"type": "boolean"}, "b": {"type": "null"}, "c": {}, "d": {"type": "string"}, "e": {"type": "integer"},
+                           "f": {"allOf": [{}]}, "g": {"type": "array", "items": {"type": "boolean"}}}},
     "unsupported_message": {"type": "object", "title": "Root", "if": {}, "then": {}, "else": {}},
 }
 
@@ -164,6 +169,26 @@ def deterministic(name, ka1, kb1, ka2, kb2):
     return len(outs) == 1
 
 
+def history_independent(i, j):
+    """the output for document B does not depend on what the process generated before (document A in between)"""
+    from vf.common import _tracing, concretize_int
+
+    names = sorted(DOCS)
+    i, j = concretize_int(i, 0, len(names) - 1), concretize_int(j, 0, len(names) - 1)
+
+    def go():
+        first = generate(DOCS[names[j]])
+        generate(DOCS[names[i]])
+        return generate(DOCS[names[j]]) == first
+
+    if _tracing():
+        from crosshair.tracers import NoTracing
+
+        with NoTracing():
+            return go()
+    return go()
+
+
 def oracle_active(name, ka, kb):
     """witness: the oracle really permutes something while generating"""
     from vf.prelude import OrderedSet
@@ -269,8 +294,11 @@ def harnesses(ctx) -> List[H]:
     pre = ["0 <= ka1 < 12", "0 <= kb1 < 2", "0 <= ka2 < 12", "0 <= kb2 < 2"]
     for name in DOCS:
         hs.append(mk(f"c09_{name}", "ka1: int, kb1: int, ka2: int, kb2: int", pre, f"return deterministic({name!r}, ka1, kb1, ka2, kb2)", timeout=400, group="oracle",
-                     tier="quick" if name in ("same_title_two_keywords", "definitions", "imports_many_kinds", "undeclared_required_and_sets", "many_schema_dependencies") else "thorough",
+                     tier="quick" if name in ("same_title_two_keywords", "definitions", "imports_many_kinds", "undeclared_required_and_sets", "many_schema_dependencies", "single_branch_defaults") else "thorough",
                      covers=f"document {name}: outputs equal under two symbolic set-order oracles"))
+    nd = len(DOCS)
+    hs.append(mk("c09_history_independent", "i: int, j: int", [f"0 <= i < {nd}", f"0 <= j < {nd}"], "return history_independent(i, j)", timeout=300, group="history",
+                 covers=f"all {nd}x{nd} ordered pairs (A, B) of documents: generate B, generate A, generate B again in one process - both outputs of B identical"))
     hs.append(mk("c09__oracle_active", "ka: int, kb: int", ["0 <= ka < 6", "0 <= kb < 6"], "return not oracle_active('same_title_two_keywords', ka, kb)", kind="witness", timeout=60))
     return hs
 
